@@ -356,11 +356,10 @@ func (r *receiver) run(ctx context.Context) error {
 	})
 
 	if err := g.Wait(); err != nil {
-		// the writers of the files that were in flight run in a group of
-		// their own; they are cancelled with ctx, but have to be gone before
-		// the stream is handed back to the caller: one of them may be about
-		// to send its request
-		dw.eg.Wait()
+		// (the writers of the files that were in flight run in a group of
+		// their own and are cancelled with ctx. They cannot be waited for
+		// here: one of them may be inside SendMsg on a stream that nobody
+		// reads any more. See asyncDataFunc.)
 		return err
 	}
 
@@ -396,6 +395,13 @@ func (r *receiver) asyncDataFunc(ctx context.Context, p string, wc io.WriteClose
 	r.muPipes.Lock()
 	r.pipes[id] = wwc
 	r.muPipes.Unlock()
+	select {
+	case <-ctx.Done():
+		// the transfer has failed (or was cancelled) and Receive is about to
+		// return or has returned: the stream belongs to the caller again
+		return ctx.Err()
+	default:
+	}
 	if err := r.conn.SendMsg(&types.Packet{Type: types.PACKET_REQ, ID: id}); err != nil {
 		return err
 	}
